@@ -15,6 +15,7 @@ CONSTANTS MaxStmts, MaxRows, MaxFlush, MaxCrash, MaxEvict, EmitOn,
           Wheres,      \* WHERE clauses of UPDATE / DELETE (see Store!Match): 0, values, 100 + k for `a >= k`
           DmlTables,   \* tables that INSERT/UPDATE/DELETE address (a subset of Tables, to focus a configuration)
           Ops,         \* statement kinds explored: subset of {"create", "insert", "update", "delete"}
+          ScriptSeqs,  \* <<>>: any values; otherwise the k-th statement, if an INSERT and ScriptSeqs[k] is not empty, inserts a sequence of values in ScriptSeqs[k]
           ScriptRows,  \* <<>>: any number of rows per INSERT; otherwise the k-th statement, if an INSERT, has a row count in ScriptRows[k]
           Script       \* <<>>: any statement at any position; otherwise the k-th statement of a path is of a kind in Script[k]
                        \* (a narrow corridor through long histories: row counts, flush and crash points still vary freely)
@@ -57,6 +58,9 @@ ScriptTwoTables == <<{"create"}, {"create"}, {"insert"}, {"insert"}, {"insert"},
 StmtOK == pc.k = "idle" /\ cnt.st < MaxStmts /\ taint = {}
 Scripted(kind) == Script = <<>> \/ (cnt.st < Len(Script) /\ kind \in Script[cnt.st + 1])
 ScriptedRows(n) == ScriptRows = <<>> \/ (cnt.st < Len(ScriptRows) /\ n \in ScriptRows[cnt.st + 1])
+ScriptedSeq(rows) == IF cnt.st >= Len(ScriptSeqs) THEN TRUE ELSE IF ScriptSeqs[cnt.st + 1] = {} THEN TRUE ELSE rows \in ScriptSeqs[cnt.st + 1]
+SeqsNone == <<>>
+SeqsInsUpdSplit == <<{}, {<<1, 1, 1>>}, {<<1>>}, {<<1>>}, {}, {<<1>>}>>
 \* a table grown until its root is an internal page, one more logged insert, then row ids handed out by unlogged
 \* statements (CREATE TABLE); a crash anywhere; then statements that take fresh row ids
 ScriptGrowThenDdl == <<{"create"}, {"insert"}, {"insert"}, {"insert"}, {"create"}, {"create", "insert"}, {"create", "insert"}>>
@@ -69,7 +73,7 @@ MCNext ==
   \/ /\ StmtOK /\ "create" \in Ops /\ Scripted("create") /\ \E t \in Tables, bad \in (IF BadVals = {} THEN {FALSE} ELSE BOOLEAN) :
           CreateStmt(t, bad) /\ H([a |-> "create", t |-> t, bad |-> bad]) /\ Bump("st") /\ Refused(<<IF bad THEN "create-bad" ELSE "create", t>>)
   \/ /\ StmtOK /\ "insert" \in Ops /\ Scripted("insert") /\ \E t \in DmlTables, rows \in RowSeqs :
-          OneBad(rows) /\ ScriptedRows(Len(rows)) /\ InsertStmt(t, rows) /\ H([a |-> "insert", t |-> t, rows |-> rows]) /\ Bump("st") /\ Refused(<<"insert", t>>)
+          OneBad(rows) /\ ScriptedRows(Len(rows)) /\ ScriptedSeq(rows) /\ InsertStmt(t, rows) /\ H([a |-> "insert", t |-> t, rows |-> rows]) /\ Bump("st") /\ Refused(<<"insert", t>>)
   \/ /\ StmtOK /\ "update" \in Ops /\ Scripted("update") /\ \E t \in DmlTables, w \in Wheres, v \in (Vals \ {9}) \cup (BadVals \cap {-1, -2}) :
           UpdateStmt(t, w, v) /\ H([a |-> "update", t |-> t, w |-> w, v |-> v]) /\ Bump("st") /\ Refused(<<"update", t>>)
   \/ /\ StmtOK /\ "delete" \in Ops /\ Scripted("delete") /\ \E t \in DmlTables, w \in Wheres :
